@@ -7,6 +7,20 @@ COMMON_TB = [
 ]
 
 PROPS = {
+    "C13": {
+        "lean_targets": ["BA.Props.C13"],
+        "harness": "c13",
+        "translators": ["extract_constants.py"],
+        "trusted_base": COMMON_TB + [
+            "address resolution (ID-protocol check, resolve_address, the BLS-account check of a new worker) and the parts of withdraw_balance outside the control record (vesting, debt, transfer, pledge notification) are environment inputs of the model; the harness derives them from how it built each message and from the observed sub-call trace",
+            "the proving-deadline cron callback is modelled as a CronTick op at an arbitrary epoch; the harness sends it to the model exactly when the trace shows a successful OnDeferredCronEvent on the miner",
+        ],
+        "assumptions": [
+            "histories start from a freshly constructed miner (MinerInfo::new: nothing pending, beneficiary = owner); the history theorems only need `nothing pending` of the start state",
+            "reading of the property: the beneficiary follows the owner in an ownership handover when beneficiary == owner; the confirming new owner drops the previous owner's pending beneficiary proposal (counted as withdrawal by the owner-after-the-step); a pending worker-key change cannot be withdrawn by anyone",
+            "the current beneficiary's approval is waived iff the owner proposes at an epoch where BeneficiaryTerm::available is zero (expired or quota used up), evaluated at proposal time as in the code",
+        ],
+    },
     "C16": {
         "lean_targets": ["BA.Props.C16"],
         "harness": "c16",
